@@ -59,6 +59,7 @@ type c04Init struct {
 type c04Case struct {
 	NVol     int       `json:"nvol"`
 	RO       []bool    `json:"ro"`
+	ROVia    string    `json:"ro_via,omitempty"` // cluster | host (AccessViaHosts)
 	Lifetime string    `json:"trash_lifetime"` // 0 | 1h
 	Init     []c04Init `json:"init"`
 	Ops      []c04Op   `json:"ops"`
@@ -163,7 +164,8 @@ func c04NewEnv(t testing.TB, run *verifkit.Run, base string, n int, nvol int, ro
 	for v := 0; v < nvol; v++ {
 		root := filepath.Join(e.dir, fmt.Sprintf("v%d", v))
 		os.MkdirAll(root, 0755)
-		e.vols = append(e.vols, vkVol{UUID: fmt.Sprintf("zzzzz-nyw5e-%015d", v), Root: root, RO: ro != nil && ro[v]})
+		// every other case configures "read-only" for this host only
+		e.vols = append(e.vols, vkVol{UUID: fmt.Sprintf("zzzzz-nyw5e-%015d", v), Root: root, RO: ro != nil && ro[v], HostOnly: ro != nil && ro[v] && n%2 == 1})
 	}
 	for i := 0; i < nblocks; i++ {
 		b := rng.Bytes(rng.Range(1, 2000))
@@ -326,6 +328,9 @@ func c04Seq(t *testing.T, run *verifkit.Run, base string) {
 		c := c04Case{NVol: rng.Range(1, 2)}
 		for v := 0; v < c.NVol; v++ {
 			c.RO = append(c.RO, c.NVol == 2 && v == 1 && rng.Chance(1, 4))
+			if c.RO[v] {
+				c.ROVia = map[bool]string{true: "host", false: "cluster"}[caseNo%2 == 1]
+			}
 		}
 		lifetime := time.Hour
 		c.Lifetime = "1h"
